@@ -374,6 +374,19 @@ impl NetcodeClient {
     }
 }
 
+/// Verification hooks (feature `verif`).
+#[cfg(feature = "verif")]
+impl NetcodeClient {
+    /// Emulates a client that has already sent `sequence` packets.
+    pub fn verif_set_sequence(&mut self, sequence: u64) {
+        self.sequence = sequence;
+    }
+
+    pub fn verif_sequence(&self) -> u64 {
+        self.sequence
+    }
+}
+
 #[cfg(test)]
 mod tests {
     use crate::{crypto::generate_random_bytes, NETCODE_MAX_PACKET_BYTES};
